@@ -1,2 +1,3 @@
 import ClientGoVerif.Model.Bytes
 import ClientGoVerif.Model.Codec
+import ClientGoVerif.Props.C19
